@@ -1,7 +1,14 @@
 import DmrVerif.Driver.Loop
 import DmrVerif.Driver.Trellis
+import DmrVerif.Driver.TranslTrellis
 
 /-! model driver for property C10 (rate ¾ trellis): the stateless `tr.*` operations plus the object
-history (`hs.*` operations thread a `Store` through the lines of one run) -/
+history (`hs.*` operations thread a `Store` through the lines of one run); `t.tr.*`: the definitions translated from the
+source (`Gen/TranslTrellis.lean`), stateless -/
 
-def main : IO Unit := Dmr.Driver.runMainS Dmr.Driver.trellisStep Dmr.Trellis.Store.empty
+def step (s : Dmr.Trellis.Store) (op : String) (args : List String) : Dmr.Trellis.Store × String :=
+  match Dmr.Driver.translTrellisOp op args with
+  | some out => (s, out)
+  | none => Dmr.Driver.trellisStep s op args
+
+def main : IO Unit := Dmr.Driver.runMainS step Dmr.Trellis.Store.empty
